@@ -37,11 +37,13 @@ def _mk(loop, role, handler=BaseRequestHandler, ka=timedelta(days=20), ml=timede
     return t, ep
 
 
-def c_echo(respond: bool, hi: int, lo: int, data: bytes, twice: bool) -> str:
+def c_echo(respond: bool, hi: int, lo: int, data: bytes, twice: bool, burst: bool, respond2: bool) -> str:
     """
     Echo (role ROLE): an inbound KEEPALIVE with the respond flag is answered by exactly one KEEPALIVE without the
     flag carrying the same data; one without the flag is never answered.  Position (63 bit: representative high
-    word x symbolic low word) and data content symbolic.
+    word x symbolic low word) and data content symbolic.  `twice`: a second KEEPALIVE with different data (and its
+    own respond flag) follows - after the first was answered, or (`burst`) in the same read, before the sender task
+    has written the first echo: each echo still carries the data of the KEEPALIVE it answers, in order.
 
     pre: 0 <= hi <= 3 and 0 <= lo <= 0xFFFFFFFF
     pre: len(data) == DLEN
@@ -49,37 +51,42 @@ def c_echo(respond: bool, hi: int, lo: int, data: bytes, twice: bool) -> str:
     """
     data = fixlen(data, DLEN)
     pos = pick(hi, HIS) * 2 ** 32 + lo
+    twice, burst = concb(twice), concb(burst)
     loop = new_loop()
     with loop:
         t, ep = _mk(loop, ROLE)
-        n0 = len(t.sent)
-        rounds = 2 if twice else 1
         devs = []
-        for r in range(rounds):
+        data2 = data + b'#second'
+        inbound = [(concb(respond), data)] + ([(concb(respond2), data2)] if twice else [])
+        before = len(t.sent)
+        expected = []
+        for i, (resp, d_) in enumerate(inbound):
             f = KeepAliveFrame()
-            f.flags_respond = respond
+            f.flags_respond = resp
             f.last_received_position = pos
-            f.data = data
-            before = len(t.sent)
+            f.data = d_
+            if resp:
+                expected.append(d_)
             t.feed_wire(f)
-            loop.run_ready()
-            new = [x for _, x in t.sent[before:]]
-            kas = [x for x in new if isinstance(x, KeepAliveFrame)]
-            if len(new) != len(kas):
-                devs.append('non-KEEPALIVE-frame-in-reaction')
-            if respond:
-                if len(kas) != 1:
+            if not burst or i == len(inbound) - 1:
+                loop.run_ready()
+                new = [x for _, x in t.sent[before:]]
+                kas = [x for x in new if isinstance(x, KeepAliveFrame)]
+                if len(new) != len(kas):
+                    devs.append('non-KEEPALIVE-frame-in-reaction')
+                if len(kas) > len(expected):
+                    devs.append('unflagged-KEEPALIVE-answered' if not expected else 'respond-flagged-KEEPALIVE-answered-more-than-once')
+                elif len(kas) < len(expected):
                     devs.append('respond-flagged-KEEPALIVE-not-answered-exactly-once')
                 else:
-                    if kas[0].flags_respond:
-                        devs.append('echo-carries-respond-flag')
-                    if bytes(kas[0].data or b'') != data:
-                        devs.append('echo-data-differs')
-                    if kas[0].stream_id != 0:
-                        devs.append('echo-on-nonzero-stream')
-            elif kas:
-                devs.append('unflagged-KEEPALIVE-answered')
-        stats.note(True, {'role': ROLE, 'respond': respond, 'dlen': DLEN})
+                    for k, want in zip(kas, expected):
+                        if k.flags_respond:
+                            devs.append('echo-carries-respond-flag')
+                        if bytes(k.data or b'') != want:
+                            devs.append('echo-data-differs')
+                        if k.stream_id != 0:
+                            devs.append('echo-on-nonzero-stream')
+        stats.note(True, {'role': ROLE, 'respond': bool(respond), 'dlen': DLEN, 'twice': twice, 'burst': burst})
         d = generic_dev(loop, ep)
         if d:
             devs.append(d)
